@@ -72,6 +72,7 @@ def case_strategy(tier, doc_kw=None, weights=(14, 3, 3), min_ops=12, max_ops=Non
         "source": source_strategy(tier, doc_kw, weights),
         "ops": st.lists(op_strategy(resets, gens), min_size=min_ops, max_size=max_ops),
         "modes": modes if modes is not None else st.just({}),
+        "foreign": st.sampled_from([None, None, None, "small", "tiny-small", "medium"]),
     })
 
 
@@ -109,7 +110,7 @@ class CaseRunner:
                 rep.fail(f.bucket, f.detail, c)
 
         try:
-            h = walk.build_harness(case["source"], case.get("modes"))
+            h = walk.build_harness(case["source"], case.get("modes"), foreign=case.get("foreign"))
         except walk.SourceRejected as e:
             if record:
                 rep.count(f"source-rejected({e.owner})")
@@ -155,7 +156,9 @@ class CaseRunner:
                 if res == "diverged":
                     if record:
                         rep.count("diverged-not-owned")
-                    break
+                    if not getattr(chk, "continue_on_divergence", False):
+                        break
+                    h.diverged = None       # the oracles of this check follow the REAL transitions; the model only picks ops
             if chk.on_end:
                 chk.on_end(h, rep)
             if record:
@@ -188,7 +191,7 @@ def describe_case(case, h):
                  host_firewalls={a: c["firewall"] for a, c in d["host_configurations"].items() if "firewall" in c})
     else:
         s = src
-    return dict(source=s, modes=case.get("modes"), ops=[list(o) for o in case["ops"][:12]],
+    return dict(source=s, modes=case.get("modes"), foreign_environment=case.get("foreign"), ops=[list(o) for o in case["ops"][:12]],
                 n_ops=len(case["ops"]),
                 final_compromised=[a for a, v in h.mst.items() if v[0]])
 
